@@ -5,6 +5,7 @@ import (
 	"encoding/json"
 	"fmt"
 	"reflect"
+	"strings"
 
 	icl "github.com/moov-io/imagecashletter"
 )
@@ -109,6 +110,36 @@ func runC15(cfg *config) *Report {
 								rep.count("key-longer-than-declared:34")
 							}
 						}
+					}
+				}
+			}
+		}
+		if i%5 == 3 {
+			// values with a blank at either end, wherever the record's own validation admits one (blank is a legal
+			// character of most text classes): the JSON trip must carry them as they are
+			for ri, rec := range writerOrder(f) {
+				goName := strings.TrimPrefix(fmt.Sprintf("%T", rec), "*imagecashletter.")
+				L := layoutOf(goName)
+				if L == nil {
+					continue
+				}
+				for wi, w := range L.Write {
+					if kindOfConv(w.Conv) != 'S' || w.Conv == "lit" || w.Width < 3 || strings.HasPrefix(w.Src, "reserved") || strings.HasPrefix(w.Src, "Length") || w.Src[0] < 'A' || w.Src[0] > 'Z' || (ri+wi)%3 != 0 {
+						continue
+					}
+					old := getField(rec, w.Src, 'S')
+					if len(old.S) == 0 || len(old.S)+1 > w.Width {
+						continue
+					}
+					nv := append(append([]byte{}, old.S...), ' ')
+					if (ri+wi)%2 == 0 {
+						nv = append([]byte{' '}, old.S...)
+					}
+					setField(rec, w.Src, FV{K: 'S', S: nv})
+					if realValidate(rec) != "ok" {
+						setField(rec, w.Src, old)
+					} else {
+						rep.count("edge-blank-value")
 					}
 				}
 			}
